@@ -121,3 +121,44 @@ class OrderFnObj:
 
     def truth(self, st):
         return True
+
+
+class RGen:
+    """numpy Generator, assumed contract (A-EXT): random() in [0,1); integers(lo,hi) in [lo,hi)."""
+
+    def __init__(self, name="rgen"):
+        self.name = name
+        self.draws = []  # (kind, term) in program order: lets contracts talk about "the drawn number"
+
+    def __pyvc_copy__(self, memo):
+        n = RGen(self.name)
+        n.draws = list(self.draws)
+        memo[id(self)] = n
+        return n
+
+    def pyvc_method(self, name, args, kwargs, st, ex, node):
+        from pyvc.values import Unsupported
+        if name == "random" and not args:
+            u = fresh("u", REAL)
+            st.assume(u >= 0, u < 1)
+            self.draws.append(("random", u))
+            yield st, u
+            return
+        if name == "integers" and len(args) == 2:
+            from pyvc.values import to_int
+            lo, hi = to_int(args[0]), to_int(args[1])
+            ex.oblige(st, f"pre:rgen.integers.nonempty_range@{node.lineno}", lo < hi, info={"callee": "rgen.integers"})
+            st.assume(lo < hi)
+            k = fresh("k", INT)
+            st.assume(k >= lo, k < hi)
+            self.draws.append(("integers", k))
+            yield st, k
+            return
+        raise Unsupported(f"rgen.{name}")
+
+    def truth(self, st):
+        return True
+
+    def witness(self, model, st):
+        from vf.witness import val
+        return {"draws": [[k, val(model, t)] for k, t in self.draws]}
